@@ -20,7 +20,8 @@ pub struct Round {
     pub victim: u8,
     /// 0 clean close, 1 close with a half-sent frame, 2 malformed command (server closes, client
     /// keeps its socket open), 3 garbage bytes, 4 non-UTF-8 key, 5 wrong argument count,
-    /// 6 well-formed command then abrupt close with an unread reply
+    /// 6 well-formed command then abrupt close with an unread reply, 7 the connection's handler
+    /// panics while serving a well-formed command
     pub way: u8,
     /// the over-limit client of this round does not wait: it aborts its connection (RST) while
     /// it is still in the listen backlog, i.e. before the server has accepted it
@@ -60,7 +61,7 @@ fn strategy(tier: Tier) -> BoxedStrategy<LimitCase> {
             (
                 Just(n),
                 proptest::collection::vec(
-                    (prop_oneof![1 => Just(true), 2 => Just(false)], any::<u8>(), 0u8..7, prop_oneof![2 => Just(false), 1 => Just(true)]).prop_map(|(probe, victim, way, abort_waiting)| Round { probe, victim, way, abort_waiting }),
+                    (prop_oneof![1 => Just(true), 2 => Just(false)], any::<u8>(), 0u8..8, prop_oneof![2 => Just(false), 1 => Just(true)]).prop_map(|(probe, victim, way, abort_waiting)| Round { probe, victim, way, abort_waiting }),
                     (n as usize)..=(3 * n as usize + 1),
                 ),
             )
@@ -76,6 +77,38 @@ fn strategy(tier: Tier) -> BoxedStrategy<LimitCase> {
         })
         .prop_map(|(n, rounds, accept_faults)| LimitCase { n, rounds, accept_faults })
         .boxed()
+}
+
+/// The server's storage for C15: a handle of the real store whose `clone()` panics once after
+/// `armed` was set.  `Handler::run` clones its storage for every command, on the connection's
+/// own task, so arming the flag and then sending one command on a connection makes exactly that
+/// connection's handler panic - the "panic in its handler" ending the property names.  (The
+/// store operations themselves run under `spawn_blocking`; a panic there only yields an error.)
+pub struct PanicKv {
+    inner: bitcask::storage::bitcask::Handle,
+    armed: std::sync::Arc<std::sync::atomic::AtomicBool>,
+}
+
+impl Clone for PanicKv {
+    fn clone(&self) -> Self {
+        if self.armed.swap(false, std::sync::atomic::Ordering::SeqCst) {
+            panic!("injected handler panic (storage clone)");
+        }
+        PanicKv { inner: self.inner.clone(), armed: self.armed.clone() }
+    }
+}
+
+impl bitcask::storage::KeyValueStorage for PanicKv {
+    type Error = <bitcask::storage::bitcask::Handle as bitcask::storage::KeyValueStorage>::Error;
+    fn set(&self, key: bytes::Bytes, value: bytes::Bytes) -> Result<(), Self::Error> {
+        bitcask::storage::KeyValueStorage::set(&self.inner, key, value)
+    }
+    fn get(&self, key: bytes::Bytes) -> Result<Option<bytes::Bytes>, Self::Error> {
+        bitcask::storage::KeyValueStorage::get(&self.inner, key)
+    }
+    fn del(&self, key: bytes::Bytes) -> Result<bool, Self::Error> {
+        bitcask::storage::KeyValueStorage::del(&self.inner, key)
+    }
 }
 
 const POSITIVE_BOUND: Duration = Duration::from_secs(10);
@@ -102,7 +135,7 @@ enum Verdict {
     Timeout(String, String),
 }
 
-fn scenario(c: &LimitCase, addr: &str, out: &mut Outcome) -> Verdict {
+fn scenario(c: &LimitCase, addr: &str, panic_flag: &std::sync::atomic::AtomicBool, out: &mut Outcome) -> Verdict {
     let n = c.n as usize;
     let mut served: Vec<RawClient> = Vec::new();
     // clients whose connection the server has ended but which keep their socket open
@@ -166,7 +199,7 @@ fn scenario(c: &LimitCase, addr: &str, out: &mut Outcome) -> Verdict {
         arm(ri + 1, out, &mut fired_total, &mut armed_total);
         let vi = crate::gen::pick(r.victim, served.len());
         let mut v = served.remove(vi);
-        let way = r.way % 7;
+        let way = r.way % 8;
         if way != 0 {
             faulty += 1;
         }
@@ -180,6 +213,23 @@ fn scenario(c: &LimitCase, addr: &str, out: &mut Outcome) -> Verdict {
             6 => {
                 let _ = v.send(&command(&[b"GET", b"unread"]));
                 v.close();
+            }
+            7 => {
+                // all N slots are taken, so the listener waits for a permit and clones nothing;
+                // the next clone of the storage is this connection's handler serving this GET
+                panic_flag.store(true, std::sync::atomic::Ordering::SeqCst);
+                let _ = v.send(&command(&[b"GET", b"boom"]));
+                let closed = v.read_to_end(POSITIVE_BOUND);
+                if panic_flag.swap(false, std::sync::atomic::Ordering::SeqCst) {
+                    return Verdict::Timeout("panic-not-triggered".into(), format!("round {}: the armed storage clone was not reached within {:?}", ri, POSITIVE_BOUND));
+                }
+                if !closed {
+                    return Verdict::Timeout(
+                        "bad-connection-not-closed".into(),
+                        format!("round {}: after its handler panicked the connection was not closed within {:?}", ri, POSITIVE_BOUND),
+                    );
+                }
+                zombies.push(v);
             }
             _ => {
                 let bytes: Vec<u8> = match way {
@@ -287,7 +337,13 @@ fn exec(c: &LimitCase, env: &Env) -> Outcome {
     crate::netfx::ACCEPT_MIN_BACKOFF_MS.store(5, std::sync::atomic::Ordering::SeqCst);
     crate::shim::accept_disarm();
     let dir = env.fresh_dir("netstore");
-    let srv = match ServerFx::start(&dir, &net_store_cfg(2 << 30), c.n as usize, 2) {
+    let panic_flag = std::sync::Arc::new(std::sync::atomic::AtomicBool::new(false));
+    let base_threads = crate::store::thread_count();
+    let started = crate::store::open_caught(&net_store_cfg(2 << 30), &dir).and_then(|kv| {
+        let storage = PanicKv { inner: kv.get_handle(), armed: panic_flag.clone() };
+        ServerFx::start_with_storage(kv, storage, c.n as usize, 2, base_threads)
+    });
+    let srv = match started {
         Ok(s) => s,
         Err(e) => {
             out.inconclusive = Some(e);
@@ -295,7 +351,8 @@ fn exec(c: &LimitCase, env: &Env) -> Outcome {
         }
     };
     let addr = srv.addr();
-    let verdict = scenario(c, &addr, &mut out);
+    let verdict = scenario(c, &addr, &panic_flag, &mut out);
+    panic_flag.store(false, std::sync::atomic::Ordering::SeqCst);
     crate::shim::accept_disarm();
     match verdict {
         Verdict::Ok => {}
@@ -333,11 +390,11 @@ pub fn prop() -> Prop<LimitCase> {
     Prop {
         id: "C15",
         level: "exploration",
-        rule: "Cases: max_connections = N in 1..5 (6 thorough) and a scenario of N..3N+1 rounds against an in-process server. First N connections are opened and each gets a reply. Every round optionally probes with an over-limit client (connects, sends GET, must receive NOTHING for 300 ms; a third of these clients then abort their connection with RST while still in the listen backlog), then ends a generated served connection in a generated way (clean close; close with a half-sent frame; malformed/unknown command, garbage bytes, non-UTF-8 key, wrong argument count - the server closes and the client keeps its socket open; abrupt close with an unread reply), then the waiting client (or a new one) must be served within 10 s. A third of the cases also make the listener's accept() fail 1-4 times in a row (shim: EMFILE, ENFILE, ENOMEM, ENOBUFS, ECONNABORTED, EINTR; the connection stays in the backlog) at 1-3 generated moments - before the first connection or right before a served connection is ended, so that the accept following the freed slot fails; the server runs with min_backoff_ms = 5. Finally everything is closed, N fresh connections must all be served concurrently, and one more must again stay silent. Non-trivial: at least N faulty endings and at least one over-limit probe; distinct = distinct hash of the case.",
+        rule: "Cases: max_connections = N in 1..5 (6 thorough) and a scenario of N..3N+1 rounds against an in-process server. First N connections are opened and each gets a reply. Every round optionally probes with an over-limit client (connects, sends GET, must receive NOTHING for 300 ms; a third of these clients then abort their connection with RST while still in the listen backlog), then ends a generated served connection in a generated way (clean close; close with a half-sent frame; malformed/unknown command, garbage bytes, non-UTF-8 key, wrong argument count - the server closes and the client keeps its socket open; abrupt close with an unread reply; a panic of the connection's handler while it serves a well-formed GET - the server's storage is a wrapper around the real handle whose clone() panics once when armed, and Handler::run clones its storage per command on the connection's task), then the waiting client (or a new one) must be served within 10 s. A third of the cases also make the listener's accept() fail 1-4 times in a row (shim: EMFILE, ENFILE, ENOMEM, ENOBUFS, ECONNABORTED, EINTR; the connection stays in the backlog) at 1-3 generated moments - before the first connection or right before a served connection is ended, so that the accept following the freed slot fails; the server runs with min_backoff_ms = 5. Finally everything is closed, N fresh connections must all be served concurrently, and one more must again stay silent. Non-trivial: at least N faulty endings and at least one over-limit probe; distinct = distinct hash of the case.",
         assumptions: &[
             "the negative probe (silence for 300 ms) can only miss violations, never invent one: a reply needs an (N+1)-th handler",
             "a missed positive bound (10 s) counts as a violation only if a calibration round trip on an idle second server taken right afterwards is fast (< 500 ms), else the case is inconclusive",
-            "no input is known to make a handler panic on the repaired tree, so the 'handler panic' ending is represented by the error endings; a panic would take the same Drop path",
+            "no input is known to make a handler panic with the plain store handle on the repaired tree, so the 'handler panic' ending is produced through the server's storage type parameter: a wrapper that delegates set/get/del to the real handle and panics in clone() once when the harness arms it (only while all N slots are taken, so the listener is not cloning)",
         ],
         needs_shim: true,
         budget: |t| t.pick(480, 6000),
